@@ -368,7 +368,6 @@ class BGP(protocol.Protocol):
         :param data:
         :return:
         """
-        self.msg_sent_stat['Notifications'] += 1
         LOG.info(
             "[%s]Send a BGP Notification message to the peer "
             "[Error: %s, Suberror: %s, Error data: %s ]",
